@@ -280,4 +280,20 @@ open Dask.Pickle in
 /-- `Alias.__reduce__` = `(Alias, (key, target))`: rebuilding keeps the target, whatever its truth value -/
 theorem alias_pickle_roundtrip (key target : Obj) : aliasInit key (some (aliasInit key (some target))) = target := rfl
 
+/-! ### non-vacuity of the graph-level and pickling hypotheses -/
+
+/-- non-vacuity of the graph-level hypotheses: `{'a': 1, 'b': (f, 'a', [2, 'a'])}` -/
+example : (∀ kv ∈ ([(.str "a", .int 1), (.str "b", .tuple [.fn 0, .str "a", .list [.int 2, .str "a"]])] : LGraph),
+      clean [.str "a", .str "b"] kv.2 = true ∧ kv.2.wf = true) ∧
+    (∀ kv ∈ ([(.str "a", .int 1), (.str "b", .tuple [.fn 0, .str "a", .list [.int 2, .str "a"]])] : LGraph),
+      convertTop [.str "a", .str "b"] kv.1 kv.2 ≠ none) ∧
+    (∀ k ∈ [Obj.str "a", .str "b"], k.keyTyped = true) := by decide
+
+open Dask.Pickle Dask.Generated.TaskSpecSlots in
+/-- non-vacuity: an object with every slot set survives the round trip -/
+example : (taskRoundtrip (slotsTask.map fun s => (s, Obj.str s))).isSome = true := by decide
+open Dask.Pickle Dask.Generated.TaskSpecSlots in
+example : (containerRoundtrip (.fn 7) (slotsNestedContainer.map fun s =>
+    (s, if s = "kwargs" then Obj.dict [(.str droppedKwarg, .fn 7)] else Obj.str s))).isSome = true := by decide
+
 end Dask.C08
